@@ -134,10 +134,10 @@ theorem akeys_adoptList (ef : Flags) : ∀ cs : List (Key × Node), akeys (adopt
   | (k, v) :: rest => by simp [adoptList, akeys, akeys_adoptList ef rest]
 
 /-- the key loop over keys none of which exists yet: every child is adopted, in order -/
-theorem mergeLoop_fresh (rec : Node → Node → Except Err (Node × Bool)) (ef : Flags) :
+theorem mergeLoop_fresh {exc : List Path} (rec : Node → Node → Except Err (Node × Bool)) (ef : Flags) :
     ∀ (bcs acc : List (Key × Node)), keysNodup bcs = true →
       (∀ k, k ∈ akeys bcs → alookup k acc = none) → allNewList bcs = true →
-      mergeLoop rec ef .dict acc bcs = .ok (acc ++ adoptList ef bcs)
+      mergeLoop rec ef .dict exc acc bcs = .ok (acc ++ adoptList ef bcs)
   | [], acc, _, _, _ => by simp [mergeLoop, adoptList]
   | (k, v) :: rest, acc, hnd, hfresh, hnew => by
     have hnd' : (akeys rest).contains k = false ∧ keysNodup rest = true := by simpa [keysNodup] using hnd
@@ -153,9 +153,9 @@ theorem mergeLoop_fresh (rec : Node → Node → Except Err (Node × Bool)) (ef 
           simp at this
           exact this hk'
         simp [alookup, this]
-    have ih := mergeLoop_fresh rec ef rest _ hnd'.2 hfresh' hnew'.2
+    have ih := mergeLoop_fresh (exc := exc) rec ef rest _ hnd'.2 hfresh' hnew'.2
     simp only [mergeLoop, mergeStep, getChild, CompKind.isDictFam, if_true, hk,
-      reqNew_allNew [] [] v hnew'.1, setChild, aset_of_lookup_none k _ acc hk, ih, adoptList]
+      reqNew_allNew _ [] v hnew'.1, setChild, aset_of_lookup_none k _ acc hk, ih, adoptList]
     simp
 
 /-- the result of `{} ⊕ b` for a mapping `b` -/
@@ -169,7 +169,7 @@ def emptyLeftResult (ef bf : Flags) (bcs : List (Key × Node)) : Node × Bool :=
 theorem mergeF_empty_left (fuel : Nat) (ef bf : Flags) (bcs : List (Key × Node))
     (hnd : keysNodup bcs = true) (hnew : allNewList bcs = true) :
     mergeF (fuel + 1) (.comp ef .dict []) (.comp bf .dict bcs) = .ok (emptyLeftResult ef bf bcs) := by
-  have hloop := mergeLoop_fresh (mergeF fuel) ef bcs [] hnd (fun _ _ => rfl) hnew
+  have hloop := mergeLoop_fresh (exc := []) (mergeF fuel) ef bcs [] hnd (fun _ _ => rfl) hnew
   simp only [List.nil_append] at hloop
   have hfin : finishMerge ef .dict (adoptList ef bcs) (.comp bf .dict bcs) =
       .ok (if hasPrio bf ef true then
